@@ -304,6 +304,95 @@ Definition init0 (recs : list rec) : st :=
 Definition in_window (single : bool) (s : st) : bool :=
   negb single && match pc s with PCopy _ | PBumpPl _ => true | _ => false end.
 
+(* ------------------------------------------------------------------ several threads, one recorder *)
+(* Every thread has its own ring of buffers, its own data file and its own program; all of them write to
+   the one message pipe, and the recorder keeps ONE shmem_list and ONE buf_write_list for all of them
+   (entries carry the tid, as the shm names "/uftrace-<sid>-<tid>-<idx>" do).  A thread's step is the
+   single-thread step on its own view (`proj`); the messages it produces are appended to the common pipe.
+   The recorder's main thread handles the head of the pipe; a writer takes the first queued buffer of
+   the tid it serves (writer_thread: per-tid, in queue order). *)
+Record thr := { h_bufs : list buf; h_curr : option nat; h_pc : ppc; h_todo : list rec; h_done : list rec;
+                h_file : list N }.
+Record mst := { m_thr : list thr; m_chan : list (nat * msg); m_shl : list (nat * nat); m_wl : list (nat * nat) }.
+Definition thr0 : thr := {| h_bufs := []; h_curr := None; h_pc := PDark; h_todo := []; h_done := []; h_file := [] |}.
+Definition sel {A} (t : nat) (l : list (nat * A)) : list A := map snd (filter (fun x => Nat.eqb (fst x) t) l).
+Definition proj (t : nat) (M : mst) : st :=
+  let h := nth t (m_thr M) thr0 in
+  {| bufs := h_bufs h; curr := h_curr h; chan := sel t (m_chan M); shl := sel t (m_shl M); wl := sel t (m_wl M);
+     file := h_file h; pc := h_pc h; todo := h_todo h; done := h_done h |}.
+Definition thr_of (s : st) : thr :=
+  {| h_bufs := bufs s; h_curr := curr s; h_pc := pc s; h_todo := todo s; h_done := done s; h_file := file s |}.
+Definition set_thr (t : nat) (h : thr) (M : mst) : mst :=
+  {| m_thr := upd t (fun _ => h) (m_thr M); m_chan := m_chan M; m_shl := m_shl M; m_wl := m_wl M |}.
+(* a step of thread t: `f` on its own view; what it sends goes to the end of the common pipe *)
+Definition lift_p (f : st -> st) (t : nat) (M : mst) : mst :=
+  if t <? length (m_thr M) then
+    let s := proj t M in
+    let s' := f s in
+    {| m_thr := upd t (fun _ => thr_of s') (m_thr M);
+       m_chan := m_chan M ++ map (pair t) (skipn (length (chan s)) (chan s'));
+       m_shl := m_shl M; m_wl := m_wl M |}
+  else M.
+Fixpoint remove_first_pair (x : nat * nat) (l : list (nat * nat)) : list (nat * nat) :=
+  match l with
+  | [] => []
+  | y :: r => if Nat.eqb (fst y) (fst x) && Nat.eqb (snd y) (snd x) then r else y :: remove_first_pair x r
+  end.
+Definition mqueue_if (t i : nat) (M : mst) : mst :=
+  let b := getb i (h_bufs (nth t (m_thr M) thr0)) in
+  if f_rec (b_flag b) && negb (Nat.eqb (b_size b) 0)
+  then {| m_thr := m_thr M; m_chan := m_chan M; m_shl := m_shl M; m_wl := m_wl M ++ [(t, i)] |} else M.
+(* read_record_mmap: the head of the pipe *)
+Definition mrstep (M : mst) : mst :=
+  match m_chan M with
+  | [] => M
+  | (t, MStart i) :: ch => {| m_thr := m_thr M; m_chan := ch; m_shl := m_shl M ++ [(t, i)]; m_wl := m_wl M |}
+  | (t, MEnd i) :: ch =>
+      mqueue_if t i {| m_thr := m_thr M; m_chan := ch; m_shl := remove_first_pair (t, i) (m_shl M); m_wl := m_wl M |}
+  end.
+(* a writer serving tid t: the first queued buffer of that tid *)
+Fixpoint take_first (t : nat) (l : list (nat * nat)) : option (nat * list (nat * nat)) :=
+  match l with
+  | [] => None
+  | (u, i) :: r => if Nat.eqb u t then Some (i, r)
+                   else match take_first t r with Some (j, r') => Some (j, (u, i) :: r') | None => None end
+  end.
+Definition mwrite (release : bool) (t i : nat) (M : mst) : mst :=
+  set_thr t (thr_of (write_one release i (proj t M))) M.
+Definition mwstep (t : nat) (M : mst) : mst :=
+  if t <? length (m_thr M) then
+    match take_first t (m_wl M) with
+    | None => M
+    | Some (i, w) => mwrite true t i {| m_thr := m_thr M; m_chan := m_chan M; m_shl := m_shl M; m_wl := w |}
+    end
+  else M.
+Inductive mlab := MP (t : nat) | MPC (t : nat) | MD (t : nat) | MDC (t : nat) | MR | MW (t : nat).
+Definition mstep (single : bool) (cap : nat) (l : mlab) (M : mst) : mst :=
+  match l with
+  | MP t => lift_p (pstep single cap) t M
+  | MPC t => lift_p (pstep_closed single cap) t M
+  | MD t => lift_p (dstep false) t M
+  | MDC t => lift_p (dstep true) t M
+  | MR => mrstep M
+  | MW t => mwstep t M
+  end.
+Definition mrun (single : bool) (cap : nat) (sched : list mlab) (M : mst) : mst :=
+  fold_left (fun M l => mstep single cap l M) sched M.
+(* end of the recording: drain the pipe, flush_shmem_list, record_remaining_buffer - over all tids *)
+Definition mdrain (M : mst) : mst := iter (length (m_chan M)) mrstep M.
+Definition mflush (M : mst) : mst :=
+  fold_left (fun M x => mqueue_if (fst x) (snd x) M) (m_shl M)
+            {| m_thr := m_thr M; m_chan := m_chan M; m_shl := []; m_wl := m_wl M |}.
+Definition mremaining (M : mst) : mst :=
+  fold_left (fun M x => if fst x <? length (m_thr M) then mwrite false (fst x) (snd x) M else M) (m_wl M)
+            {| m_thr := m_thr M; m_chan := m_chan M; m_shl := m_shl M; m_wl := [] |}.
+Definition mfinish (M : mst) : mst := mremaining (mflush (mdrain M)).
+(* every thread before its first hook call *)
+Definition minit (recss : list (list rec)) : mst :=
+  {| m_thr := map (fun recs => thr_of (init0 recs)) recss; m_chan := []; m_shl := []; m_wl := [] |}.
+Definition mfile (t : nat) (M : mst) : list N := h_file (nth t (m_thr M) thr0).
+Definition mdone (t : nat) (M : mst) : list rec := h_done (nth t (m_thr M) thr0).
+
 (* ------------------------------------------------------------------ the property checker *)
 Fixpoint list_eqb (a b : list N) : bool :=
   match a, b with
